@@ -107,7 +107,32 @@ F8 == { Case("F8", <<x, n, y>>, FALSE, "") : x \in {A, B}, n \in Nullables, y \i
 
 F9 == { ACase(t, a) : t \in Terms(1) \cup Terms(2) \cup { <<Lit(105), Lit(102)>>, <<Lit(94), A>>, <<A, Lit(94), B>>, <<Lit(36)>> }, a \in {"^", "$", "^$"} }
 
-All == F9 \cup F1 \cup F1top \cup F2 \cup F3 \cup F4 \cup F5 \cup F6 \cup F8
+\* ---- F10: the same class (or the same operand) occurring several times in one pattern, unquantified, quantified and
+\* mixed: every occurrence is a position of its own ----
+F10 == UNION { { Case("F10", <<ClsF(n), ClsF(n)>>, FALSE, ""),
+                 Case("F10", <<ClsF(n), A, ClsF(n)>>, FALSE, ""),
+                 Case("F10", <<ClsF(n), ClsF(m), ClsF(n)>>, FALSE, ""),
+                 Case("F10", <<AltF(<< <<ClsF(n)>>, <<B>> >>), Lit(45), AltF(<< <<ClsF(n)>>, <<B>> >>)>>, FALSE, ""),
+                 Case("F10", <<ClsF(n), RepF(<<ClsF(n)>>, 0, -1, "star", FALSE), ClsF(n)>>, FALSE, ""),
+                 Case("F10", <<RepF(<<ClsF(n), ClsF(n)>>, 2, 2, "n", FALSE)>>, FALSE, ""),
+                 Case("F10", <<SetF(<<Cls(n), Ch(45)>>, FALSE), SetF(<<Cls(n), Ch(45)>>, FALSE)>>, FALSE, "") }
+               : n \in {"d", "w", "s", "digit", "alpha", "xdigit"}, m \in {"w", "d"} }
+       \cup { Case("F10", <<Dot, Dot>>, FALSE, ""), Case("F10", <<Dot, A, Dot>>, FALSE, ""), Case("F10", <<A, A>>, FALSE, ""),
+              Case("F10", <<AltF(<< <<A>>, <<B>> >>), AltF(<< <<A>>, <<B>> >>)>>, FALSE, "") }
+
+\* ---- F12: Unicode categories in both polarities, alone, together in either order, in a group, repeated (ASCII words only) ----
+\* Only the letter categories: their tables are filled in (ASCII letters).  The tables of every other category are empty or
+\* whole blocks in the code, under a "TODO: Unicode Classes" comment, and the documentation gives names only - nothing is
+\* asserted about them (DESIGN.md, limits).
+UniSafe == {"Lu", "Ll", "L", "Letter"}
+PU(x) == ClsF("p:" \o x)
+NU(x) == ClsF("P:" \o x)
+F12 == UNION { { Case("F12", <<PU(x)>>, FALSE, ""), Case("F12", <<NU(x)>>, FALSE, ""),
+                 Case("F12", <<PU(x), NU(x)>>, FALSE, ""), Case("F12", <<NU(x), PU(x)>>, FALSE, ""),
+                 Case("F12", <<SetF(<<Cls("p:" \o x), Ch(97)>>, FALSE)>>, FALSE, ""),
+                 Case("F12", <<A, RepF(<<PU(x)>>, 1, -1, "plus", FALSE), B>>, FALSE, "") } : x \in UniSafe }
+
+All == F12 \cup F10 \cup F9 \cup F1 \cup F1top \cup F2 \cup F3 \cup F4 \cup F5 \cup F6 \cup F8
 
 ASSUME /\ ndJsonSerialize("gen_cases.ndjson", SetToSeq(All))
        /\ PrintT(<<"GENERATED", Cardinality(All), "F1", Cardinality(F1) + Cardinality(F1top), "F2", Cardinality(F2),
